@@ -28,12 +28,28 @@ def build_shim():
     return so
 
 
-def run(args, timeout=120, clock_seq=None):
+def build_fault_shim():
+    so = os.path.join(C.BUILD, "faultshim.so")
+    src = os.path.join(C.VERIF, "witness", "faultshim.c")
+    if not os.path.exists(so) or os.path.getmtime(so) < os.path.getmtime(src):
+        rc, out, dt = C.run(["cc", "-shared", "-fPIC", "-O1", "-o", so, src, "-ldl"], timeout=120)
+        if rc != 0:
+            return None
+    return so
+
+
+def run(args, timeout=120, clock_seq=None, fault_shim=False):
     """Returns (reproduced: bool|None, output lines). None = witness could not be built/run."""
     if not build():
         return None, ["witness crate failed to build"]
     exe = os.path.join(C.BUILD, "witness", "debug", "verif-witness")
     env = None
+    if fault_shim:
+        so = build_fault_shim()
+        if so is None:
+            return None, ["fault shim failed to build"]
+        env = C.env_offline()
+        env["LD_PRELOAD"] = so
     if clock_seq is not None:
         so = build_shim()
         if so is None:
